@@ -15,6 +15,7 @@
 #ifndef ST_SCAP
 #define ST_SCAP 2 /* longest string value / name: ST_SCAP bytes + terminator */
 #endif
+#define VP_MEM_BYTELOOP 8 /* exact byte-loop memcpy (include/env_mem.h), unwound above ST_SCAP+1 */
 #define ST_NCLK 8 /* more clock calls than any shape has nodes */
 
 /* ---- mutex model: one "held" flag per mutex the file can meet ----------- */
